@@ -475,7 +475,8 @@ func Run(t *simkit.Tape, o *simkit.Outcome, full bool) {
 	if res.Stalls > 0 {
 		// the code under test blocks in real primitives: schedules are no longer
 		// fully owned by the tape (documented limit), results are still judged
-		o.ProbeN("turn-taken-over-from-blocked-holder", res.Stalls)
+		o.Probe("turn-taken-over-from-blocked-holder")
+		o.TimingDependent = true
 	}
 	if res.Interleaved {
 		o.Probe("tasks-interleaved")
